@@ -355,6 +355,15 @@ type Custom struct {
 	B string
 }
 
+// APIErr is a codec-style error of the application.
+type APIErr struct{ Msg string }
+
+func (e *APIErr) Error() string { return e.Msg }
+func (e *APIErr) ToJSONRPCError() (jsonrpc.JSONRPCError, error) {
+	return jsonrpc.JSONRPCError{Code: 4242, Message: e.Msg}, nil
+}
+func (e *APIErr) FromJSONRPCError(j jsonrpc.JSONRPCError) error { e.Msg = j.Message; return nil }
+
 // DoPanic raises one of the payload kinds.
 func DoPanic(kind int, tok string) {
 	switch kind {
@@ -383,6 +392,10 @@ func DoPanic(kind int, tok string) {
 		panic(Stringer{tok})
 	case 10:
 		panic(http.ErrAbortHandler) // the sentinel net/http uses to abort a handler silently
+	case 11:
+		panic(&APIErr{Msg: "apierr:" + tok}) // a typed API error (codec-style) used as the panic payload
+	case 12:
+		panic(fmt.Errorf("while handling %s: %w", tok, &APIErr{Msg: "apierr:" + tok}))
 	}
 }
 
